@@ -172,7 +172,7 @@ func buildHTTP(c Case, b *built, viol *violations) (gun, ammo map[string]any, er
 		if stamp != "" {
 			// the middleware stamps the request an instance acquired, once; what other deliveries of the same ammo
 			// (other instances, earlier passes) were stamped with must not arrive here
-			vals := r.Header[stamp]
+			vals := r.Header[http.CanonicalHeaderKey(stamp)]
 			if len(vals) != 1 {
 				viol.add("target: request for entry %d arrived with %d values of header %s %q, the header/date middleware sets it once per acquired request: the request shares state with other deliveries of this ammo", i, len(vals), stamp, vals)
 			} else if _, terr := time.Parse(http.TimeFormat, vals[0]); terr != nil {
@@ -391,6 +391,8 @@ func scenarioList(s *Scen, steps []string) []any {
 type exchange struct {
 	puu, rid string
 	uses     map[string]int
+	// failedAt: the step at which the target gave this invocation an answer the step's postprocessors reject ("" = none)
+	failedAt string
 }
 
 type scenJudge struct {
@@ -404,6 +406,32 @@ type scenJudge struct {
 	uuids    map[string]string
 	varVal   string
 	requests int
+	failed   int // unsatisfying answers given
+}
+
+// unsatisfying decides (and records) whether the answer to `step` of invocation n is one that the step's
+// postprocessors reject: every FailEvery-th invocation, once, at step FailAt.
+func (j *scenJudge) unsatisfying(step string, n int) bool {
+	if !j.s.failsAt(step) || n <= 0 || n%j.s.FailEvery != 0 {
+		return false
+	}
+	j.mu.Lock()
+	defer j.mu.Unlock()
+	e := j.ex[n]
+	if e == nil || e.failedAt != "" {
+		return false
+	}
+	e.failedAt = step
+	j.failed++
+	return true
+}
+
+// wantFailed: invocations 1..shots that get an unsatisfying answer when every invocation runs up to FailAt.
+func (j *scenJudge) wantFailed() int {
+	if j.s.FailEvery <= 0 {
+		return 0
+	}
+	return j.c.Shots / j.s.FailEvery
 }
 
 func newJudge(c Case, viol *violations) *scenJudge {
@@ -598,6 +626,9 @@ func (j *scenJudge) follow(step string, links []link, get func(string) (string, 
 		j.viol.add("target: step %s presented values numbered %d, which the target never issued", step, n)
 		return -1
 	}
+	if e.failedAt != "" {
+		j.viol.add("target: step %s presented token #%d, but the %s step of that invocation got an answer its postprocessors reject: upon a failed assertion further scenario execution is dropped", step, n, e.failedAt)
+	}
 	if v, ok := get("puu"); ok && v != e.puu {
 		j.viol.add("target: step %s presented token #%d with invocation uuid %q, but that token was issued to the invocation with uuid %q: a value issued to one invocation was presented by another", step, n, v, e.puu)
 	}
@@ -689,8 +720,8 @@ func httpScenarioDoc(c Case, b *built) map[string]any {
 	if s.PostXpath {
 		posts = append(posts, map[string]any{"type": "var/xpath", "mapping": map[string]any{"xtok": "//div[@id='tok']"}})
 	}
-	if s.PostAssert {
-		posts = append(posts, map[string]any{"type": "assert/response", "body": []any{"token"}, "status_code": 200,
+	if s.PostAssert || s.failsAt("auth") {
+		posts = append(posts, map[string]any{"type": "assert/response", "body": []any{"token", "granted"}, "status_code": 200,
 			"headers": map[string]any{"Content-Type": "json"}})
 	}
 	if len(posts) > 0 {
@@ -738,6 +769,10 @@ func httpScenarioDoc(c Case, b *built) map[string]any {
 	}
 	if s.RespIndex != "" {
 		use["preprocessor"] = map[string]any{"mapping": map[string]any{"item": "request.auth.postprocessor.items[" + s.RespIndex + "]"}}
+	}
+	if s.failsAt("use") {
+		use["postprocessors"] = []any{map[string]any{"type": "assert/response", "body": []any{"accepted"}, "status_code": 200,
+			"headers": map[string]any{"Content-Type": "json"}}}
 	}
 	if s.Templater != "" {
 		auth["templater"] = map[string]any{"type": s.Templater}
@@ -813,8 +848,12 @@ func buildHTTPScen(c Case, b *built, viol *violations) (gun, ammo map[string]any
 			}
 			n := j.auth(get)
 			it := itemsOf(n)
-			body := fmt.Sprintf(`{"token":"%s","uid":%d,"items":[%d,%d,%d],"html":"<div id='tok'>%s</div>"}`, tokenOf(n), n, it[0], it[1], it[2], xTokOf(n))
-			return target.Resp{Status: 200, Header: map[string]string{"Content-Type": "application/json", "X-Tok": hdrTokOf(n)}, Body: []byte(body)}
+			body := fmt.Sprintf(`{"token":"%s","granted":true,"uid":%d,"items":[%d,%d,%d],"html":"<div id='tok'>%s</div>"}`, tokenOf(n), n, it[0], it[1], it[2], xTokOf(n))
+			resp := target.Resp{Status: 200, Header: map[string]string{"Content-Type": "application/json", "X-Tok": hdrTokOf(n)}, Body: []byte(body)}
+			if j.unsatisfying("auth", n) {
+				spoil(&resp, s.FailKind, "granted", "refused")
+			}
+			return resp
 		case u.Path == "/use" && step == "use":
 			var links []link
 			addLink := func(name, v string, num int) { links = append(links, link{name, v, num}) }
@@ -868,8 +907,12 @@ func buildHTTPScen(c Case, b *built, viol *violations) (gun, ammo map[string]any
 					hdrTwin(r, viol, "use", "rid", q.Get("rid"), "X-Rid2")
 				}
 			}
-			j.follow("use", links, get, item, max(1, s.Repeat))
-			return target.Resp{Status: 200, Header: map[string]string{"Content-Type": "application/json"}, Body: []byte(`{"ok":true}`)}
+			n := j.follow("use", links, get, item, max(1, s.Repeat))
+			resp := target.Resp{Status: 200, Header: map[string]string{"Content-Type": "application/json"}, Body: []byte(`{"ok":true,"accepted":true}`)}
+			if j.unsatisfying("use", n) {
+				spoil(&resp, s.FailKind, "accepted", "declined")
+			}
+			return resp
 		default:
 			viol.add("target: unexpected request %s %s", r.Method, r.RequestURI)
 			return target.Resp{Status: 200, Body: []byte("{}")}
@@ -882,14 +925,44 @@ func buildHTTPScen(c Case, b *built, viol *violations) (gun, ammo map[string]any
 		if j.seq > c.Shots || (b.strict && j.seq != c.Shots) {
 			viol.add("target: %d scenario invocations began (auth requests), the provider was limited to %d", j.seq, c.Shots)
 		}
-		if want := c.Shots * (1 + max(1, s.Repeat)); len(recs) > want || (b.strict && len(recs) != want) {
-			viol.add("target: %d requests arrived, %d invocations of 1+%d steps make %d", len(recs), c.Shots, max(1, s.Repeat), want)
+		rep := max(1, s.Repeat)
+		most := c.Shots * (1 + rep)
+		want, dropped := most, ""
+		if s.FailEvery > 0 {
+			// an invocation whose step failed is dropped: no `use` after a failed auth, no further `use` after a failed one
+			f := j.wantFailed()
+			if s.FailAt == "auth" {
+				want -= f * rep
+			} else {
+				want -= f * (rep - 1)
+			}
+			dropped = fmt.Sprintf(", %d of them dropped after an unsatisfying answer to %s", f, s.FailAt)
+			if b.strict && j.failed != f {
+				viol.add("target: %d invocations got an unsatisfying answer at %s, expected %d of %d (every %d-th)", j.failed, s.FailAt, f, c.Shots, s.FailEvery)
+			}
+		}
+		if len(recs) > most || (b.strict && len(recs) != want) {
+			viol.add("target: %d requests arrived, %d invocations of 1+%d steps%s make %d", len(recs), c.Shots, rep, dropped, want)
 		}
 		return len(recs)
 	}
 	gun = map[string]any{"type": "http/scenario", "target": tg.Addr(), "dial": map[string]any{"timeout": "20s"}}
 	ammo = map[string]any{"type": "http/scenario", "file": name, "limit": c.Shots}
 	return gun, ammo, nil
+}
+
+// spoil turns a well-formed answer into one that a postprocessor of the step rejects.
+func spoil(r *target.Resp, kind, word, instead string) {
+	switch kind {
+	case "status":
+		r.Status = 403
+	case "header":
+		r.Header["Content-Type"] = "text/plain"
+	case "notjson":
+		r.Body = append([]byte("<<< "), r.Body...)
+	default: // body: the word the assertion looks for is missing
+		r.Body = []byte(strings.Replace(string(r.Body), word, instead, 1))
+	}
 }
 
 // ---------------- grpc/scenario ----------------
@@ -935,7 +1008,7 @@ func grpcScenarioDoc(c Case, b *built) map[string]any {
 	if m := authMapping(s); len(m) > 0 {
 		auth["preprocessors"] = []any{map[string]any{"type": "prepare", "mapping": m}}
 	}
-	if s.PostAssert {
+	if s.PostAssert || s.failsAt("auth") {
 		auth["postprocessors"] = []any{map[string]any{"type": "assert/response", "payload": []any{"token"}, "status_code": 200}}
 	}
 	// ---- list ----
@@ -948,6 +1021,9 @@ func grpcScenarioDoc(c Case, b *built) map[string]any {
 	}
 	list := map[string]any{"name": "list", "tag": "l", "call": "target.TargetService.List",
 		"payload": `{"token": ` + jstr(joinKV(append([]kvPart{{"step", "list"}}, tokParts...))) + `, "user_id": {{` + post + `userId}}}`}
+	if s.failsAt("list") {
+		list["postprocessors"] = []any{map[string]any{"type": "assert/response", "payload": []any{"item_id"}, "status_code": 200}}
+	}
 	// ---- order ----
 	itemExpr := "1"
 	order := map[string]any{"name": "order", "tag": "o", "call": "target.TargetService.Order"}
@@ -955,6 +1031,9 @@ func grpcScenarioDoc(c Case, b *built) map[string]any {
 		order["preprocessors"] = []any{map[string]any{"type": "prepare", "mapping": map[string]any{
 			"item": "request.list.postprocessor.result[" + s.RespIndex + "].itemId"}}}
 		itemExpr = "{{.request.order.preprocessor.item}}"
+	}
+	if s.failsAt("order") {
+		order["postprocessors"] = []any{map[string]any{"type": "assert/response", "payload": []any{"order_id"}, "status_code": 200}}
 	}
 	order["payload"] = `{"token": ` + jstr(joinKV(append([]kvPart{{"step", "order"}}, tokParts...))) + `, "user_id": {{` + post + `userId}}, "item_id": ` + itemExpr + `}`
 	switch s.Meta {
@@ -1072,6 +1151,9 @@ func buildGRPCScen(c Case, b *built, viol *violations) (gun, ammo map[string]any
 			}
 			n := j.auth(func(k string) (string, bool) { v, ok := kv[k]; return v, ok })
 			resp.Token, resp.UserID = tokenOf(n), int64(n)
+			if j.unsatisfying("auth", n) {
+				resp.Token = "" // the answer has no `token` field: assert/response payload ["token"] fails
+			}
 		case *server.ListRequest:
 			kv := parseKV(req.GetToken())
 			links := []link{{"token (response of auth)", kv["tok"], numAfter("T", kv["tok"])}, {"user_id (response of auth)", fmt.Sprint(req.GetUserId()), int(req.GetUserId())}}
@@ -1093,6 +1175,9 @@ func buildGRPCScen(c Case, b *built, viol *violations) (gun, ammo map[string]any
 			} else {
 				resp.Items = []int64{1, 2, 3}
 			}
+			if j.unsatisfying("list", n) {
+				resp.Items = nil // an empty list has no `item_id`
+			}
 		case *server.OrderRequest:
 			kv := parseKV(req.GetToken())
 			links := []link{{"token (response of auth)", kv["tok"], numAfter("T", kv["tok"])}, {"user_id (response of auth)", fmt.Sprint(req.GetUserId()), int(req.GetUserId())}}
@@ -1110,8 +1195,11 @@ func buildGRPCScen(c Case, b *built, viol *violations) (gun, ammo map[string]any
 					}
 				}
 			}
-			j.follow("order", links, mkGetNoMD(kv), item, max(1, s.Repeat))
+			n := j.follow("order", links, mkGetNoMD(kv), item, max(1, s.Repeat))
 			resp.OrderID = 1
+			if j.unsatisfying("order", n) {
+				resp.OrderID = 0 // the answer has no `order_id` field
+			}
 		default:
 			viol.add("target: unexpected %s call", call.Method)
 		}
@@ -1124,8 +1212,26 @@ func buildGRPCScen(c Case, b *built, viol *violations) (gun, ammo map[string]any
 		if j.seq > c.Shots || (b.strict && j.seq != c.Shots) {
 			viol.add("target: %d scenario invocations began (Auth calls), the provider was limited to %d", j.seq, c.Shots)
 		}
-		if want := c.Shots * (2 + max(1, s.Repeat)); len(calls) > want || (b.strict && len(calls) != want) {
-			viol.add("target: %d calls arrived, %d invocations of 2+%d steps make %d", len(calls), c.Shots, max(1, s.Repeat), want)
+		rep := max(1, s.Repeat)
+		most := c.Shots * (2 + rep)
+		want, dropped := most, ""
+		if s.FailEvery > 0 {
+			f := j.wantFailed()
+			switch s.FailAt {
+			case "auth":
+				want -= f * (1 + rep)
+			case "list":
+				want -= f * rep
+			default:
+				want -= f * (rep - 1)
+			}
+			dropped = fmt.Sprintf(", %d of them dropped after an unsatisfying answer to %s", f, s.FailAt)
+			if b.strict && j.failed != f {
+				viol.add("target: %d invocations got an unsatisfying answer at %s, expected %d of %d (every %d-th)", j.failed, s.FailAt, f, c.Shots, s.FailEvery)
+			}
+		}
+		if len(calls) > most || (b.strict && len(calls) != want) {
+			viol.add("target: %d calls arrived, %d invocations of 2+%d steps%s make %d", len(calls), c.Shots, rep, dropped, want)
 		}
 		return len(calls)
 	}
